@@ -300,7 +300,7 @@ func authWorld(driver string, idx int) (*ledgerWorld, error) {
 
 func TestC04(t *testing.T) {
 	ev := vlib.NewEvidence("C04", "exploration",
-		"for each of the 7 signed endpoints x identity style (node id / wallet address): a reference-signed fresh request must pass verification (and request.Sign must produce the same signature), then every single-component alteration (signature made for another method, other identity, other key, nonce+-1, each JSON leaf / struct field of the params, one bit in each of the 64 R||S bytes, malformed/empty/short/garbage/oversize signatures, swapped encoding) must be refused with a verification error and leave the pool digest unchanged; non-trivial = altered request differs from an accepted one in exactly one component; distinct = (endpoint, style, alteration)")
+		"for each of the 7 signed endpoints x identity style (node id / wallet address): a reference-signed fresh request must pass verification (and request.Sign must produce the same signature), then every single-component alteration (signature made for another method, other identity, other key, nonce+-1, each JSON leaf / struct field of the params, one bit in each of the 64 R||S bytes, malformed/empty/short/garbage/oversize signatures, swapped encoding) must be refused with a verification error and leave the pool digest unchanged, in process and again over a persistent connection on which another identity has just authenticated; non-trivial = altered request differs from an accepted one in exactly one component; distinct = (endpoint, style, alteration)")
 	ev.Assume("the V byte of a node-style signature and 27/28 vs 0/1 are not covered by the signature scheme: only required not to crash")
 	ev.Assume("the legacy vipnode_update form (signature over {peers, block_number}) is accepted by design; its unsigned peers_info is a documented compatibility hole and is not asserted")
 	rounds := vlib.Scale(2, 12)
@@ -405,6 +405,42 @@ func TestC04(t *testing.T) {
 							detail["before"], detail["after"] = before, after
 							ev.Violate(fmt.Sprintf("refused-request-had-effect:%s:%s:%s", ep.Method, style, class), detail)
 						}
+					}
+					// the same alterations arriving over a persistent connection on which another
+					// identity has just authenticated: what that connection proved is not the
+					// altered request's business
+					{
+						conn := w.Dial(other, "192.0.2.210:7")
+						creq := vlib.ConnectReq((round+ei)%2 == 0, "geth", "", "")
+						on := w.NextNonce(other.NodeID)
+						oc := guardedCall(conn.AgentSide, "vipnode_connect", vlib.RefSign(other.Key, "vipnode_connect", other.NodeID, on, creq), other.NodeID, on, creq)
+						if !oc.Accepted {
+							ev.Violate("valid-request-refused:vipnode_connect:other-identity-session", map[string]interface{}{"err": fmt.Sprint(oc.Err), "panic": oc.Panic})
+						} else {
+							for _, alt := range buildAlterations(r, key, other, ep.Method, identity, w.NextNonce(identity), ep.Args(r, identity)) {
+								class := strings.SplitN(alt.Name, ":", 2)[0]
+								if class == "sigbyte" && !strings.HasSuffix(alt.Name, ":0") && !strings.HasSuffix(alt.Name, ":63") {
+									continue
+								}
+								before := w.Digest(universe, accounts)
+								out := guardedCall(conn.AgentSide, ep.Method, alt.Params...)
+								after := w.Digest(universe, accounts)
+								ev.Case(fmt.Sprintf("%s/%s/%s/on-other-identity-connection", ep.Method, style, alt.Name), true)
+								ev.Count("alterations-on-other-identity-connection:"+class, 1)
+								detail := map[string]interface{}{"endpoint": ep.Method, "style": style, "driver": driver, "alteration": alt.Name, "err": fmt.Sprint(out.Err), "panic": out.Panic, "connection": "authenticated by another identity just before"}
+								switch {
+								case out.Panic != "":
+									ev.Violate(fmt.Sprintf("panic:%s:%s:%s", ep.Method, style, class), detail)
+								case alt.MayPass:
+								case !out.Verify:
+									ev.Violate(fmt.Sprintf("altered-request-not-refused:%s:%s:%s:on-other-identity-connection", ep.Method, style, class), detail)
+								case before != after:
+									detail["before"], detail["after"] = before, after
+									ev.Violate(fmt.Sprintf("refused-request-had-effect:%s:%s:%s:on-other-identity-connection", ep.Method, style, class), detail)
+								}
+							}
+						}
+						conn.Close()
 					}
 					if round == 0 && ei < 2 && style == "node" {
 						ev.Sample(map[string]interface{}{"endpoint": ep.Method, "style": style, "identity": vlib.Short(identity), "baseline_args": args, "baseline_outcome": fmt.Sprint(base.Err)})
